@@ -112,10 +112,11 @@ Section Get.
 Variable hash : bytes -> N.
 
 Lemma linear_search_spec (s : linked (pair node)) key i fuel :
-  wf s -> i + fuel = size s ->
+  wf s -> key <> [] -> i + fuel = size s ->
   linear_search s key i fuel = getres_of (find_cell (skipn i (to_list s)) key i).
 Proof.
-  intros W. revert i. induction fuel; intros i Hf; simpl.
+  intros W KE. assert (NK : is_nil key = false) by (destruct key; [congruence|reflexivity]).
+  revert i. induction fuel; intros i Hf; simpl.
   - rewrite skipn_all2; auto. rewrite (to_list_length _ W). lia.
   - replace (size s <=? i) with false by (symmetry; apply Nat.leb_gt; lia).
     rewrite (At_spec _ _ W).
@@ -125,7 +126,7 @@ Proof.
       { clear - E. revert i E. induction (to_list s); intros; destruct i; simpl in *; try discriminate.
         - now inversion E.
         - now apply IHl. }
-      rewrite Hs. simpl. destruct (bytes_eqb k key); reflexivity.
+      rewrite Hs. simpl. rewrite NK. simpl. rewrite andb_true_r. destruct (bytes_eqb k key); reflexivity.
     + apply nth_error_None in E. rewrite (to_list_length _ W) in E. lia.
 Qed.
 
@@ -153,7 +154,7 @@ Theorem index_get_spec (s : lpairs node) key :
 Proof.
   intros W CO ND IO KE. unfold P_Get.
   destruct (index s) as [m|] eqn:EI.
-  2:{ rewrite (linear_search_spec _ _ 0 (size (pv s)) W) by lia. reflexivity. }
+  2:{ rewrite (linear_search_spec _ _ 0 (size (pv s)) W KE) by lia. reflexivity. }
   destruct (IO m eq_refl) as (I1 & I2).
   destruct (idx_get m (hash key)) as [i|] eqn:EG.
   - specialize (I2 _ _ EG). rewrite (At_spec _ _ W).
@@ -169,7 +170,7 @@ Proof.
       assert (exists_ c' = true).
       { destruct (exists_ c') eqn:X; auto. destruct (C2' eq_refl). contradiction. }
       eapply ND; eauto.
-    + rewrite (linear_search_spec _ _ 0 (size (pv s)) W) by lia. reflexivity.
+    + rewrite (linear_search_spec _ _ 0 (size (pv s)) W KE) by lia. reflexivity.
   - destruct (find_cell (to_list (pv s)) key 0) as [j|] eqn:F; auto.
     exfalso. destruct (find_cell_key _ _ _ _ F) as (h & c & Hj).
     destruct (CO _ _ _ _ Hj) as (_ & C2).
@@ -178,12 +179,13 @@ Proof.
     rewrite (I1 _ _ _ _ Hj H) in EG. discriminate.
 Qed.
 
-(* without an index Get is the linear search for every key (the empty key included: an unset cell matches it) *)
+(* without an index Get is the linear search (stated for non-empty keys; for the key "" the search skips soft-deleted cells
+   since fix 6c9aabd, see Refute.emptykey_unset_agrees) *)
 Theorem noindex_get_spec (s : lpairs node) key :
-  wf (pv s) -> index s = None -> P_Get hash s key = getres_of (find_cell (to_list (pv s)) key 0).
+  wf (pv s) -> index s = None -> key <> [] -> P_Get hash s key = getres_of (find_cell (to_list (pv s)) key 0).
 Proof.
-  intros W EI. unfold P_Get. rewrite EI.
-  rewrite (linear_search_spec _ _ 0 (size (pv s)) W) by lia. reflexivity.
+  intros W EI KE. unfold P_Get. rewrite EI.
+  rewrite (linear_search_spec _ _ 0 (size (pv s)) W KE) by lia. reflexivity.
 Qed.
 
 End Get.
